@@ -385,6 +385,22 @@ def applyLowG (w : World) (c : Cache) (callOrigin obProg ptr : Nat) (name : Name
   let (r, c') := applyLow w c (localOrigin callOrigin) obProg ptr name
   (r, c', 0)
 
+/-- the protocol seen from the global: an interleaved `apply (.., where)` (loading an object applies valid_object
+    and create; bodies may apply more), or one target of f_call_other / call_all_other -/
+inductive PStep where
+  | apply (origin p ptr : Nat) (name : NameKey)
+  | target (p ptr : Nat) (name : NameKey)
+  deriving Repr
+
+/-- one protocol step on (cache, call_origin): both kinds store their origin immediately before apply_low -/
+def pstep (w : World) (g : Cache × Nat) : PStep → ApplyRes × (Cache × Nat)
+  | .apply origin p ptr name => let (r, c, co) := applyLowG w g.1 origin p ptr name; (r, (c, co))
+  | .target p ptr name => let (r, c, co) := applyLowG w g.1 originCallOther p ptr name; (r, (c, co))
+
+def psteps (w : World) (g : Cache × Nat) : List PStep → Cache × Nat
+  | [] => g
+  | st :: rest => psteps w (pstep w g st).2 rest
+
 /-- one loaded object per program file (named objects); the harness' labels (`o1`, `=p3`) name them -/
 structure Obj where
   prog : Nat
